@@ -484,15 +484,15 @@ Section ReadProofs.
     intros y Hy. destruct (neqb_spec x y); [subst; contradiction|reflexivity].
   Qed.
 
-  (* a duplicate-free list of available columns, an explicit index drawn from the stored (non-partition)
-     columns: the frame has exactly the requested columns minus the index, in the requested order *)
+  (* a duplicate-free list of available columns and ANY explicit index drawn from the available columns
+     (stored or partition columns): the frame has exactly the requested columns minus the index, in the
+     requested order *)
   Theorem out_columns_requested : forall (h : handle) req idx,
     NoDup req -> incl req (h_cols h ++ cats_of h) -> incl idx (h_cols h ++ cats_of h) ->
-    (forall x, In x idx -> ~ In x (cats_of h)) ->
     out_columns h (mk_ropts (Some req) (IdxNames idx))
     = Ok (filter (fun c => negb (mem neqb c idx)) req, idx).
   Proof.
-    intros h req idx Hnd Hreq Hidx Hdis. unfold Read.out_columns. cbn [o_cols o_index].
+    intros h req idx Hnd Hreq Hidx. unfold Read.out_columns, Read.out_columns_gen. cbn [o_cols o_index].
     set (all := h_cols h ++ cats_of h).
     set (extra := filter (fun i => negb (mem neqb i req)) idx).
     assert (Hall : forallb (fun c => mem neqb c all) (req ++ extra) = true).
@@ -507,9 +507,10 @@ Section ReadProofs.
     rewrite Hex, app_nil_r, dedup_app.
     rewrite dedup_nodup by (apply NoDup_filter, Hnd).
     rewrite (filter_none _ _ (dedup neqb _)); [apply app_nil_r|].
-    intros x Hx. apply dedup_incl in Hx. apply filter_In in Hx. destruct Hx as [Hc Hm].
+    intros x Hx. apply dedup_incl in Hx. apply filter_In in Hx. destruct Hx as [Hx Hni].
+    apply filter_In in Hx. destruct Hx as [_ Hm].
     apply mem_In in Hm. apply negb_false_iff. apply mem_In. apply filter_In.
-    assert (Hni : ~ In x idx) by (intro Hi; exact (Hdis x Hi Hc)).
+    apply negb_true_iff, mem_false in Hni.
     split.
     - apply in_app_or in Hm. destruct Hm as [Hm|Hm]; [exact Hm|]. apply filter_In in Hm. tauto.
     - apply negb_true_iff. apply mem_false. exact Hni.
@@ -519,15 +520,29 @@ Section ReadProofs.
     NoDup req -> incl req (h_cols h ++ cats_of h) ->
     out_columns h (mk_ropts (Some req) IdxFalse) = Ok (req, []).
   Proof.
-    intros h req Hnd Hreq. unfold Read.out_columns. cbn [o_cols o_index filter]. rewrite app_nil_r.
+    intros h req Hnd Hreq. unfold Read.out_columns, Read.out_columns_gen. cbn [o_cols o_index filter]. rewrite app_nil_r.
     assert (Hall : forallb (fun c => mem neqb c (h_cols h ++ cats_of h)) req = true).
     { apply forallb_forall. intros x Hx. apply mem_In, Hreq, Hx. }
     rewrite Hall. f_equal. f_equal.
     rewrite (filter_all _ _ req) by reflexivity.
     rewrite dedup_app, dedup_nodup by exact Hnd.
     rewrite (filter_none _ _ (dedup neqb _)); [apply app_nil_r|].
-    intros x Hx. apply dedup_incl in Hx. apply filter_In in Hx. destruct Hx as [_ Hm].
+    intros x Hx. apply dedup_incl in Hx. apply filter_In in Hx. destruct Hx as [Hx _].
+    apply filter_In in Hx. destruct Hx as [_ Hm].
     rewrite Hm. reflexivity.
+  Qed.
+
+  (* the pinned tree: with a partition column as index the column list is NOT the request minus the index *)
+  Lemma out_columns_pinned_keeps_index_column : forall (h : handle) c p,
+    h_rgs h <> [] -> h_cols h = [c] -> h_pcols h = [p] -> c <> p ->
+    out_columns_pinned neqb h (mk_ropts (Some [c; p]) (IdxNames [p])) = Ok ([c; p], [p]).
+  Proof.
+    intros h c p Hr Hc Hp Hne. unfold out_columns_pinned, out_columns_gen, cats_of. cbn [o_cols o_index].
+    destruct (h_rgs h) as [|d l]; [contradiction|]. rewrite Hc, Hp. unfold mem. cbn.
+    destruct (neqb_spec c c) as [_|F]; [|contradiction]. destruct (neqb_spec p p) as [_|F]; [|contradiction].
+    destruct (neqb_spec c p) as [F|_]; [contradiction|]. destruct (neqb_spec p c) as [F|_]; [symmetry in F; contradiction|].
+    cbn. destruct (neqb_spec c p) as [F|_]; [contradiction|]. destruct (neqb_spec p p) as [_|F]; [|contradiction].
+    cbn. destruct (neqb_spec c p) as [F|_]; [contradiction|]. reflexivity.
   Qed.
 
   (* the column choice never changes which rows are delivered *)
@@ -543,7 +558,7 @@ Section ReadProofs.
   Lemma out_columns_nonempty_irrel : forall (h : handle) l1 l2 o, l1 <> [] -> l2 <> [] ->
     out_columns (with_rgs h l1) o = out_columns (with_rgs h l2) o.
   Proof.
-    intros h l1 l2 o H1 H2. unfold Read.out_columns, cats_of, with_rgs. cbn.
+    intros h l1 l2 o H1 H2. unfold Read.out_columns, Read.out_columns_gen, cats_of, with_rgs. cbn.
     destruct l1; [contradiction|]. destruct l2; [contradiction|]. reflexivity.
   Qed.
 
@@ -829,7 +844,7 @@ Section Programs.
     (l1 = [] <-> l2 = []) ->
     out_columns neqb (mk_handle l1 c p i) o = out_columns neqb (mk_handle l2 c p i) o.
   Proof.
-    intros D1 D2 l1 l2 c p i o H. unfold out_columns, cats_of. cbn [h_rgs h_cols h_pcols h_index].
+    intros D1 D2 l1 l2 c p i o H. unfold out_columns, out_columns_gen, cats_of. cbn [h_rgs h_cols h_pcols h_index].
     destruct l1, l2; try reflexivity.
     - destruct H as [H _]. specialize (H eq_refl). discriminate.
     - destruct H as [_ H]. specialize (H eq_refl). discriminate.
